@@ -3,7 +3,7 @@ Line-protocol driver for the C18 models.  Parsing glue only.
 
 ops
   rebuild <hasMask> <nd> old₁…old_nd new₁…new_nd <nbits> bits… <ngroups> (key npts coords…)*
-      → ok masked|plain S <shape…> M <one char per mask pixel: 0 1 | t0 t1 (tie) | d (degenerate)> L <coords…>
+      → ok masked|plain S <shape…> M <one char per mask pixel: 0 1 (binary64 chain) | d (degenerate axis)> L <coords…>
   winit <hasMask> <h> <w> <nbits> bits… <rows> <cols> (r c)* <ngroups> (key npts coords…)*
       → ok masked|plain S <rows> <cols> M <bits> L <coords…>
   norm <stat> <mode> <errOnZero> <fixed> <C> <N> data… [<k> scales…]      stat ∈ one | var | given
@@ -15,9 +15,20 @@ ops
       → the decorated normalisers (normalize_std/norm/var) on an image: ok values… | err …
   norms <stat> <mode> <errOnZero> <fixed> <C> <N> data… [<k> scales…]
       → ok <input buffer unchanged 0|1> <result buffer is a new one 0|1> values…
+  grad <isU8> <C> <H> <W> data…                      → ok F <flat N-D variant agrees 0|1> V values… | err type|small
+  gradnd <nd> shape… <C> data…                        → ok values… | err small          (3-D images)
+  igo <dbl> <C> <H> <W> data… <k> (gy gx mag)*        → ok values… | err small          (mag: the contract parameter)
+  es <C> <H> <W> data… <k> (gy gx mag)*               → ok values… (nan = 0/0) | err small
+  gauss <C> <H> <W> data… <hasY> [w0 r ws…] <hasX> [w0 r ws…]
+      → ok T <total of each kernel…> F <flat N-D variant agrees 0|1> V values…
+  gaussnd <nd> shape… <C> data… (<has> [w0 r ws…]){nd}  → ok values…          (3-D images)
+  notwod <nDims>                                      → err not2d | err not2d   (igo | es on an image that is not 2-D)
+  daisyshape <H> <W> <radius> <step> <rings> <histograms> <orientations>   → ok <channels> <h> <w>
+  noops <C> <N> data…                                 → ok <input buffer unchanged> <result in a new buffer> values…
 -/
 import MenpoModel.Core.Codec
 import MenpoModel.Core.C18Feature
+import MenpoModel.Core.C18Kernels
 
 namespace MenpoModel.Drive.C18
 open MenpoModel.Codec MenpoModel.C18
@@ -43,6 +54,7 @@ def fErr : Err → String
   | .scale => "err scale"
   | .dims => "err dims"
   | .index => "err index"
+  | .maskShape => "err maskshape"
 
 /-- the contract parameter as a function: `one`, exact `var`, or the table (centred group ↦ given scale) -/
 def mkStat (kind : String) (mode : Mode) (c : Chans) (scales : List Rat) : Option (List Rat → Rat) :=
@@ -57,13 +69,39 @@ def mkStat (kind : String) (mode : Mode) (c : Chans) (scales : List Rat) : Optio
       some fun l => ((table.find? (·.1 == l)).map (·.2)).getD 1
   | _ => none
 
+def fErrK : Err → String
+  | .feature 10 => "err type"
+  | .feature 11 => "err small"
+  | .feature 12 => "err not2d"
+  | e => fErr e
+
+def pPx : P (Px × Nat × Nat) := do
+  let c ← pNat; let h ← pNat; let w ← pNat
+  let x ← pMany (pMany (pMany pRat w) h) c
+  pure (x, h, w)
+
+/-- the magnitude contract parameter as a function: a table `(g_y, g_x) ↦ |g|` supplied by the harness -/
+def pMag : P (Rat → Rat → Rat) := do
+  let tbl ← pList (do let a ← pRat; let b ← pRat; let m ← pRat; pure (a, b, m))
+  pure fun a b => ((tbl.find? fun t => t.1 == a && t.2.1 == b).map (·.2.2)).getD 0
+
+def pKern : P (Option Kern) := do
+  let has ← pBool
+  if has then
+    let w0 ← pRat
+    let ws ← pList pRat
+    pure (some ⟨w0, ws⟩)
+  else pure none
+
+def fOpt : Option Rat → String
+  | none => "nan"
+  | some r => fmtRat r
+
 def pScales (kind : String) : P (List Rat) := if kind == "given" then pList pRat else pure []
 
-def maskChars (m : Mask) (new : List Nat) : String :=
-  " ".intercalate ((List.range (prod new)).map fun k =>
-    match resizeBit m new k with
-    | (none, _) => "d"
-    | (some b, tie) => (if tie then "t" else "") ++ (if b then "1" else "0"))
+def maskChars (m m' : Mask) (new : List Nat) : String :=
+  if degenerateAxes m.shape new then " ".intercalate ((List.range (prod new)).map fun _ => "d")
+  else fmtBools m'.bits
 
 def step (toks : List String) : String :=
   match toks with
@@ -81,7 +119,7 @@ def step (toks : List String) : String :=
       | .ok res =>
         let ms := match res.mask, im.mask with
           | some m', some m =>
-            if new != old then "S " ++ fmtNats m'.shape ++ " M " ++ maskChars m new
+            if new != old then "S " ++ fmtNats m'.shape ++ " M " ++ maskChars m m' new
             else "S " ++ fmtNats m'.shape ++ " M " ++ fmtBools m'.bits
           | _, _ => "S M"
         "ok " ++ (if res.mask.isSome then "masked " else "plain ") ++ ms ++ " L " ++ fLms res.lms
@@ -189,6 +227,87 @@ def step (toks : List String) : String :=
         | .ok (s', j) =>
           "ok " ++ (if s'.read 0 == x then "1 " else "0 ") ++ (if decide (1 ≤ j) then "1 " else "0 ")
             ++ fmtRats (s'.read j).flatten
+    | none => "bad-op"
+  | "grad" :: r =>
+    match runP (do let u8 ← pBool; let x ← pPx; pure (u8, x)) r with
+    | some (u8, (x, h, w)) =>
+      match gradient2 u8 x with
+      | .error e => fErrK e
+      | .ok g =>
+        let flat := gradientFlat [h, w] (x.map List.flatten)
+        let same := match flat with
+          | .ok f => f == g.map List.flatten
+          | .error _ => false
+        "ok F " ++ (if same then "1" else "0") ++ " V " ++ fmtRats (g.map List.flatten).flatten
+    | none => "bad-op"
+  | "gradnd" :: r =>
+    match runP (do
+        let shape ← pList pNat
+        let c ← pNat
+        let x ← pMany (pMany pRat (prod shape)) c
+        pure (shape, x)) r with
+    | some (shape, x) =>
+      match gradientFlat shape x with
+      | .error e => fErrK e
+      | .ok g => "ok " ++ fmtRats g.flatten
+    | none => "bad-op"
+  | "notwod" :: r =>
+    match runP (do let nd ← pNat; pure nd) r with
+    | some nd =>
+      match igoChecked (fun _ _ => 1) false nd [], esChecked (fun _ _ => 1) nd [] with
+      | .error e1, .error e2 => fErrK e1 ++ " | " ++ fErrK e2
+      | _, _ => "ok"
+    | none => "bad-op"
+  | "igo" :: r =>
+    match runP (do let dbl ← pBool; let x ← pPx; let mag ← pMag; pure (dbl, x, mag)) r with
+    | some (dbl, (x, _, _), mag) =>
+      match igoChecked mag dbl 2 x with
+      | .error e => fErrK e
+      | .ok g => "ok " ++ fmtRats (g.map List.flatten).flatten
+    | none => "bad-op"
+  | "es" :: r =>
+    match runP (do let x ← pPx; let mag ← pMag; pure (x, mag)) r with
+    | some ((x, _, _), mag) =>
+      match esChecked mag 2 x with
+      | .error e => fErrK e
+      | .ok g => "ok " ++ " ".intercalate ((g.map List.flatten).flatten.map fOpt)
+    | none => "bad-op"
+  | "gauss" :: r =>
+    match runP (do let x ← pPx; let ky ← pKern; let kx ← pKern; pure (x, ky, kx)) r with
+    | some ((x, h, w), ky, kx) =>
+      match gauss2 ky kx x with
+      | .error e => fErrK e
+      | .ok g =>
+        let same := gaussFlat [ky, kx] [h, w] (x.map List.flatten) == g.map List.flatten
+        "ok T " ++ fmtRats ([ky, kx].filterMap fun k => k.map Kern.total) ++ " F " ++ (if same then "1" else "0")
+          ++ " V " ++ fmtRats (g.map List.flatten).flatten
+    | none => "bad-op"
+  | "gaussnd" :: r =>
+    match runP (do
+        let shape ← pList pNat
+        let c ← pNat
+        let x ← pMany (pMany pRat (prod shape)) c
+        let ks ← pMany pKern shape.length
+        pure (shape, x, ks)) r with
+    | some (shape, x, ks) => "ok " ++ fmtRats (gaussFlat ks shape x).flatten
+    | none => "bad-op"
+  | "daisyshape" :: r =>
+    match runP (do
+        let h ← pNat; let w ← pNat; let radius ← pNat; let st ← pNat
+        let rings ← pNat; let hist ← pNat; let ori ← pNat
+        pure (h, w, radius, st, rings, hist, ori)) r with
+    | some (h, w, radius, st, rings, hist, ori) =>
+      "ok " ++ toString (daisyChannels rings hist ori) ++ " " ++ fmtNats (daisyShape h w radius st)
+    | none => "bad-op"
+  | "noops" :: r =>
+    match runP (do let c ← pNat; let n ← pNat; pMany (pMany pRat n) c) r with
+    | some x =>
+      let s0 : Store := ⟨[x]⟩
+      match noOpS s0 0 with
+      | .error e => fErrK e
+      | .ok (s', j) =>
+        "ok " ++ (if s'.read 0 == x then "1 " else "0 ") ++ (if decide (1 ≤ j) then "1 " else "0 ")
+          ++ fmtRats (s'.read j).flatten
     | none => "bad-op"
   | _ => "bad-op"
 
